@@ -267,11 +267,26 @@ def run(ctx):
             ctx.violation('C01:%s-after-%s' % (fe.get('op', 'end'), pe.get('op', 'start')),
                           'event bus execution (context %s) not explained by EventBus spec at line %s: %s (prev %s)' % (
                               jobs[i][1], info.get('line'), fe, pe), {'job': list(jobs[i]), 'trace': traces[i], 'info': info})
-    ctx.assumptions += ['posts during machine boot are not driven', 'handlers are plain functions; queue events are C02']
+    # ---- queue events are events too: delivery, order, conditions and kwarg precedence on the post_queue path
+    from drivers import c02
+    wdq = tlc.prepare(ctx.scratch, 'QueueEvents', 'queueevents_c01')
+    with open(wdq + '/MCK.cfg', 'w') as f:
+        f.write(c02.cfg_text('MCSpec', '{"q1"}', '{"h1", "h2"}', 2, 4 if ctx.quick else 5,
+                             c02.MC_INV + 'INVARIANT CondRespected\n', '{TRUE, FALSE}', 'FullCondSet', '{0, 1}')
+                .replace('Prio = {1, 2, 3}', 'Prio = {1, 2}'))
+    r = tlc.expect_ok(tlc.check(wdq, 'QueueEventsMC', 'MCK.cfg', timeout=3000), 'QueueEvents design check (kwargs, conditions)')
+    ctx.add_tlc('QueueEventsMC (kwargs + conditions)', r, {'Ev': 1, 'Hid': 2, 'MaxTasks': 2, 'MaxOps': 4 if ctx.quick else 5})
+    ctx.coverage['monitors'] += ['CondRespected (queue events)']
+    c02.queue_traces(ctx, wdq, True, 'C01', 120 if ctx.quick else 2500, 50 if ctx.quick else 80, with_modes=False)
+    ctx.assumptions += ['posts during machine boot are not driven', 'handlers are plain functions or, on the queue-event path, '
+                        'coroutines; waiting/completion of queue events is judged by C02']
 
 
 def replay(ctx, data):
     d = data['replay']
+    if d.get('kind') == 'queue':
+        from drivers import c02
+        return c02.replay(ctx, data)
     tr = exec_schedule(tuple(d['job']))
     print('replay trace:', tr['ev'])
     wd = tlc.prepare(ctx.scratch, 'EventBus', 'eventbus')
